@@ -98,3 +98,20 @@ def encodeStepDyadic (m : Nat) (e : Int) (numbps : Int) : Nat :=
   pack em.1 em.2
 
 end J2kQuant
+
+/-!
+  ## which QCD entry each sub-band is quantised with
+  `Encoder.applyQuantizationBySubbandFloat` / `TileDecoder.applyDequantizationBySubbandFloat` walk the bands with a
+  counter: `subbandIdx := 0; (LL) …; subbandIdx++; for res := 1..numLevels { for each band b of res { if
+  subbandIdx < len(steps) && b.width > 0 && b.height > 0 { (de)quantise with steps[subbandIdx] }; subbandIdx++ } }`.
+  The counter advances for EVERY band, empty or not.  `stepWalk L` lists (res, band, index used).
+-/
+namespace J2kQuant
+
+def resLoop : Nat → Nat → Nat → List (Nat × Nat × Nat)
+  | 0, _, _ => []
+  | n + 1, res, idx => (res, 1, idx) :: (res, 2, idx + 1) :: (res, 3, idx + 2) :: resLoop n (res + 1) (idx + 3)
+
+def stepWalk (numLevels : Nat) : List (Nat × Nat × Nat) := (0, 0, 0) :: resLoop numLevels 1 1
+
+end J2kQuant
